@@ -250,41 +250,7 @@ def _resolution_idiom(pm, node):
     return False
 
 
-class _Sym(Exception):
-    pass
-
-
-def _sym_eval(e, env):
-    n = norm(e)
-    if n in env:
-        return env[n]
-    if n.endswith('config.sort_buffersize') or n == 'sort_buffersize':
-        return 'CONFIG'
-    if isinstance(e, ast.Constant) and e.value is None:
-        return 'NONE'
-    if isinstance(e, ast.IfExp):
-        return _sym_eval(e.body if _sym_test(e.test, env) else e.orelse, env)
-    raise _Sym('cannot evaluate `%s`' % n)
-
-
-def _sym_test(t, env):
-    nt = _is_none_test(t)
-    if nt is None:
-        if isinstance(t, ast.UnaryOp) and isinstance(t.op, ast.Not):
-            return not _sym_test(t.operand, env)
-        raise _Sym('test `%s` is not a None test' % norm(t))
-    v = _sym_eval(nt[0], env)
-    return (v == 'NONE') == nt[1]
-
-
-def _sym_exec(stmts, env, names):
-    """Execute the assignments to `names` (and the None-ladders around them)."""
-    for s in stmts:
-        if isinstance(s, ast.Assign) and len(s.targets) == 1 and norm(s.targets[0]) in names:
-            env[norm(s.targets[0])] = _sym_eval(s.value, env)
-        elif isinstance(s, ast.If) and any(isinstance(x, ast.Assign) and norm(x.targets[0]) in names
-                                           for b in s.body + s.orelse for x in ast.walk(b)):
-            _sym_exec(s.body if _sym_test(s.test, env) else s.orelse, env, names)
+from ..symres import NoneDefault, Sym as _Sym
 
 
 def _buffersize_resolution(ctx, rep):
@@ -345,16 +311,22 @@ def _buffersize_resolution(ctx, rep):
                          'and the remaining rows are lost, or never-ending chunks are written'
                          % (role, norm(e), ref), node)
     # (c) that quantity is the argument, or the global default when the argument is None
+    nd = NoneDefault(ctx, 'sort_buffersize')
     for scen, arg in (('buffersize=None', 'NONE'), ('buffersize=n', 'USER')):
         try:
             env = {'buffersize': arg}
-            _sym_exec(init.node.body, env, {'self.buffersize', 'buffersize'})
-            if 'self.buffersize' not in env:
+            envs = nd.run(init.node.body, env, {'self.buffersize', 'buffersize'}, init)
+            if any('self.buffersize' not in e2 for e2 in envs):
                 raise _Sym('self.buffersize is not set')
-            env2 = {'self.buffersize': env['self.buffersize']}
-            names = {ref} if '.' not in ref else set()
-            _sym_exec(nc.node.body, env2, names)
-            got = _sym_eval(reads[0][1], env2)
+            gots = set()
+            for e1 in envs:
+                env2 = {'self.buffersize': e1['self.buffersize']}
+                names = {ref} if '.' not in ref else set()
+                for e3 in nd.run(nc.node.body, env2, names, nc):
+                    gots.add(nd.eval(reads[0][1], e3, nc))
+            want0 = 'CONFIG' if arg == 'NONE' else 'USER'
+            bad = sorted(g for g in gots if g != want0)
+            got = bad[0] if bad else want0
         except _Sym as e:
             rep.undecided('R11.2', nc, 'chunk size when %s' % scen, str(e), reads[0][2])
             continue
@@ -364,7 +336,7 @@ def _buffersize_resolution(ctx, rep):
         else:
             rep.violated('R11.2', nc, 'chunk size when %s' % scen,
                          'chunks are read with `%s`, which is %s here; expected %s' % (
-                             ref, {'NONE': 'None (unbounded: the whole source is sorted in memory)', 'CONFIG': 'the global default',
+                             ref, {'NONE': 'None (unbounded: the whole source is sorted in memory)', 'CONFIG': 'the global default', 'CONST': 'a fixed literal',
                                    'USER': 'the caller\'s value'}[got],
                              'petl.config.sort_buffersize' if want == 'CONFIG' else 'the caller\'s buffersize'), reads[0][2])
 
